@@ -154,7 +154,11 @@ func (fr *frame) newMapIter(m *omap) iter {
 	if m.advers && len(it.order) > 1 && fr.i.ex.mapOrderOn {
 		n := len(it.order)
 		if n > fr.i.ex.mapOrderMax {
-			panic(boundExceeded(fmt.Sprintf("adversarial map with %d entries exceeds permutation bound %d", n, fr.i.ex.mapOrderMax)))
+			sh := fr.i.ex.shared
+			sh.mu.Lock()
+			sh.Assumes[fmt.Sprintf("maps with more than %d entries are iterated in insertion order (not permuted)", fr.i.ex.mapOrderMax)]++
+			sh.mu.Unlock()
+			return it
 		}
 		// draw a permutation by successive choices (Fisher-Yates with explored choices)
 		for k := 0; k < n-1; k++ {
